@@ -582,6 +582,8 @@ func (vc *VC) assumeEntryLocks(st *State, fi *FuncInfo) {
 		vc.assume(st, eq(vc.heapGet(st, "anyR<RBMutex>", SBool), "false"))
 	}
 	vc.assume(st, eq(vc.heapGet(st, "anyW<Group.mu>", SBool), "false"))
+	// the stripe's batch token is held on entry only by functions flagged holds_token (Buffer.Free)
+	vc.assume(st, eq(vc.heapGet(st, "gh.token", SBool), b(fi != nil && fi.Spec != nil && fi.Spec.Flags["holds_token"])))
 	srt := ArrSort(SRef, SBool)
 	vc.curLabel = "lockstate"
 	defer func() { vc.curLabel = "" }()
@@ -650,6 +652,9 @@ func (vc *VC) callLockCheck(st *State, callee *FuncInfo, recv Val, pos token.Pos
 		vc.oblige(st, "lock", "policy_call", pos, or(vc.anyHeld(st, "Store.policyMu", false), fresh), "call to "+callee.Key+" requires the policy lock")
 	} else if acq["Store.policyMu"] {
 		vc.oblige(st, "lock", "policy_call", pos, not(vc.anyHeld(st, "Store.policyMu", false)), "call to "+callee.Key+" (which takes the policy lock) while holding it")
+	}
+	if callee.Spec != nil && callee.Spec.Flags["holds_token"] {
+		vc.oblige(st, "lock", "token_call", pos, vc.heapGet(st, "gh.token", SBool), "call to "+callee.Key+" requires the stripe's batch token")
 	}
 	if e.shardW {
 		vc.oblige(st, "lock", "shard_call", pos, or(vc.anyHeld(st, "RBMutex", false), fresh), "call to "+callee.Key+" requires a shard write lock")
